@@ -39,6 +39,33 @@ CLAIMS.update({
    text="Bit-precise VCs of _add_linear/_merge_linear (no wrap: uint_maxval - count, min_count + value, 64->32 bit stores), _log_counter/_add_log*/_merge_log* (absorbing ceiling) and heavy-hitter _add/_merge (clamping match branch) are proved; lemmas show a key at the ceiling stays there under any add or merge, no add or merge lowers a counter or estimate, and a heavy-hitter count that fills its cell alone only grows and clamps."),
 })
 
+GLUE_NOTE = "Trusted: front end B (skv/pyexec.py, symbolic execution of a stated Python subset re-parsed from the tree every run), CPython/NumPy semantics of that subset, the assumed library contracts listed in the evidence (SharedMemory, np.savez/np.load round trip, multiprocessing Queue/Process, Counter), z3. Kernels are used through their contracts (proved in the kernel-level properties). Oracles on the real classes are bounded stand-ins / replay search, never counted as proved."
+TECHB = "contract-based deductive verification: symbolic execution of the real Python methods (ast) against sidecar contracts + z3; kernels by contract"
+CLAIMS.update({
+ "C07": dict(level="other", ref="DESIGN.md 4 (C07), 5", technique="contract-based: deterministic clauses proved from the _query contract; envelope reduced to C02+C17 (statistical part only sampled)", note="The probabilistic error envelope is NOT decided by any contract: it is reduced to C02 (registers = max-rank table of the key set) and C17 (query = documented estimator) plus the external HLL++ analysis; a seeded simulation with k=8 is a bounded statistical stand-in. float64 as real; ln monotone / ln 1 = 0 as axiom instances.",
+   text="Proved from the contract of hyperloglog._query (itself proved from the typed IR): the empty sketch estimates exactly 0.0, and for n distinct keys with linear-counting value below the threshold the estimate does not exceed the linear-counting value for n occupied registers."),
+ "C08": dict(level=PROOF, ref="DESIGN.md 4 (C08)", technique=TECHB, note=GLUE_NOTE + " parallel_merging is proved per concrete worker count (n = 1..6 quick, 1..11 thorough): BOUNDED in n, unbounded in sketch contents. Not decided: that the OS / multiprocessing honour the assumed contracts. Known finding F3 (generator input not picklable under spawn) is reported as KNOWN-FINDING.",
+   text="The real _fill_queue, _worker, _merge_worker, parallel_merging and parallel_add are executed symbolically: every item is queued once followed by one pill per worker; a worker applies the callback exactly once per received item, in order, to sketches attached to its own parent-owned blocks and accounts n_records once per cms/hh sketch at its pill; parallel_merging merges every input exactly once (symbolic weights) with disjoint pairs per round and all processes joined; parallel_add creates one shared sketch per type per worker, hands worker i its own sketches by name, and returns the merged results in the documented order."),
+ "C10": dict(level=PROOF, ref="DESIGN.md 4 (C10)", technique=TECHB, note=GLUE_NOTE + " float64 round trip of heavy-hitter width/depth/max_key_len exact below 2^53; _find_base is a function of its arguments.",
+   text="For each of the five classes the real save() and load() are executed symbolically on an object produced by the real constructor: load never raises on a file save wrote (the constructor's precondition holds for every state the constructor can produce), returns the same class with provably equal parameters, restores every table and the bookkeeping counters from the member save wrote them to, regenerates the heavy-hitter cache, supports shared_memory=True, the module-level load dispatches by the stored dtype and class loaders reject other counter types."),
+ "C12": dict(level=PROOF, ref="DESIGN.md 4 (C12)", technique=TECH + "; " + TECHB, note=KERNEL_NOTE + " NOT proved: 'add(key, v) equals v single adds' - bounded oracle on the real classes only (log types under identical draws).",
+   text="Every n-gram kernel is proved (typed IR, call-sequence contracts; HyperLogLog by ghost fold) to perform exactly one call of its family's add kernel per window key[i:i+n], i = 0..len-n, multiplicity 1 (one call on the whole key when len <= n), on its own tables, threading the random pointer; update(list), update(dict), update_ngram are proved to issue exactly the kernel-call sequence of the loop of single calls, __getitem__ that of query (symbolic execution of the real methods of all five classes)."),
+ "C13": dict(level=PROOF, ref="DESIGN.md 4 (C13)", technique=TECHB, note=GLUE_NOTE + " generate_candidate_set is proved for concrete small shapes (width*depth <= 4 quick, <= 6 thorough) with fully symbolic contents: BOUNDED in shape. Counter.most_common is an assumed contract. n_added does not wrap 2^64.",
+   text="generate_candidate_set: the cache maps exactly the stored identities of non-empty cells whose _max_count (max over all rows, by contract) is >= threshold to that count, and records (n_added, threshold). query(): for every cache state it regenerates for the effective threshold (floor(phi*n_added) by default) unless n_added_sort >= n_added and threshold_sort equals it, and returns candidate_set.most_common(k); no mutator touches the cache bookkeeping while add/merge change n_added through their kernels; counts equal hh[key] (same kernel, same arguments)."),
+ "C14": dict(level="other", ref="DESIGN.md 4 (C14), 5", technique="contract-based: hash-schedule clauses of the kernel contracts proved; statistical independence only sampled", note="The exp(-depth) bound is probabilistic and not decidable by contracts; FastHash64 under distinct seeds is ASSUMED to behave as independent uniform functions (chi-square stand-in only).",
+   text="In every query/add kernel of the count-min and heavy-hitter families the column of row r is proved to be FastHash64(whole key, seed = r) mod width: one distinct seed per row, the same schedule in all kernels of a family, the whole (truncated-to-max_key_len) key hashed."),
+ "C15": dict(level=PROOF, ref="DESIGN.md 4 (C15)", technique=TECHB, note=GLUE_NOTE + " Objects reached by any history keep the parameter fields their constructor gave them (no public method reassigns them).",
+   text="For every class pair the real merge() is executed symbolically on two objects produced by symbolically executing the real constructors: a raising path raises TypeError, performs no store or kernel call first and implies the property's incompatibility disjunction; a returning path implies compatibility, calls exactly the family's merge kernel on the two operands' own tables and satisfies the kernel's requires clauses."),
+ "C16": dict(level=PROOF, ref="DESIGN.md 4 (C16)", technique=TECHB, note=GLUE_NOTE + " SharedMemory(size=n) gives exactly n bytes (Linux); unlink removes the segment.",
+   text="Layout equations for all shapes (no alignment assumption): the views created by __init__(shared_memory=True) tile the block exactly and n_added_records has two elements; attach_existing_shm computes provably the same offset, extent, dtype and shape for every view; helpers.attach_shared_memory rebuilds a sketch with provably equal parameters; __del__ unlinks only through the owner's handle, a view only closes, views are dropped before close."),
+ "C17": dict(level=PROOF, ref="DESIGN.md 4 (C17)", technique=TECH + "; " + TECHB, note=KERNEL_NOTE + " float64 as real; np.log, np.interp, np.count_nonzero and ** are named uninterpreted functions whose NumPy meaning is assumed.",
+   text="The term computed by _query (typed IR over reals, callees by contract) is proved equal to the property's piecewise HyperLogLog++ estimator; _estimation_function's loop is proved to compute alpha*m^2/sum(2^-r); the constructor is proved to set alpha, m = 2^p and to take threshold / raw_estimate / bias_data from row p-7 of the shipped tables; the tables satisfy the stated data obligations (strictly increasing, begin where the thresholds end)."),
+ "C19": dict(level=PROOF, ref="DESIGN.md 4 (C19)", technique=TECHB, note=GLUE_NOTE + " NOT DECIDED: termination ('never hangs') - liveness of OS processes and queues; only the safety parts are proved. Process.exitcode / Queue.close contracts assumed.",
+   text="_worker: on every subset of raising items the callback is attempted once per item in order, a raising item contributes 0 records and the loop continues, the pill branch accounts exactly the successful returns. parallel_add: for symbolic worker exit codes a normal return implies every worker exited with code 0; a non-zero code leads to kill + queue close and an exception. parallel_merging: a merge worker with a negative exit code raises RuntimeError."),
+ "C20": dict(level=PROOF, ref="DESIGN.md 4 (C20)", technique=TECHB, note=GLUE_NOTE + " ASSUMED EXTERNAL CONTRACT: numpy/zipfile reject every strict prefix of an .npz file; validated only by the bounded prefix test on real files.",
+   text="Repository-side obligations for all five loaders and the module-level load: no exception handler encloses np.load or a member access, every member save() wrote is read through the open npz file (inside the with-block) before a sketch is returned - so numpy's error for a truncated file reaches the caller."),
+})
+
 NOT_YET = "check not built yet (construction in progress; see DESIGN.md section 7)"
 
 checks = []
